@@ -33,10 +33,13 @@ class C12(PropBase):
 
     def init_op(self, rng):
         role = "s" if rng.random() < 0.55 else "c"
-        return {"op": "init", "sessions": [{"name": "S", "role": role}, {"name": "T", "role": role}],
+        customs = rng.choice([[], [], ["EdgeFilter31", "EdgeAuth31"], ["EdgeFilter30", "EdgeAuth32"], ["EdgeFilter127", "EdgeAuth128"],
+                              ["EdgeFilter128", "EdgeAuth127"], ["CustomAuth", "CustomControl", "CustomFilter"]])
+        return {"op": "init", "customs": customs,
+                "sessions": [{"name": "S", "role": role, "register": customs}, {"name": "T", "role": role, "register": customs}],
                 "illegal_p": rng.choice([0.0, 0.1, 0.3]), "chunk": rng.choice(["mixed", "mixed", "byte", "whole"]),
                 "drain_bias": rng.choice(["mixed", "mixed", "tiny", "lazy"]), "big": rng.choice([0.05, 0.2]),
-                "huge": rng.choice([0.0] * 9 + [0.02]), "first_id": rng.choice([1, 1, 1, 120, 250, 32760, 65530, 2 ** 31 - 40]),
+                "huge": rng.choice([0.0] * 9 + [0.02]), "mega": rng.choice([0.0, 0.0, 0.5]), "first_id": rng.choice([1, 1, 1, 120, 250, 32760, 65530, 2 ** 31 - 40]),
                 "bad_text": rng.choice([0.0, 0.0, 0.04]), "style": policy.wire_style(rng)}
 
     def make(self, init):
@@ -50,7 +53,9 @@ class C12(PropBase):
         w = st.w
         init = w.init
         S = w.s["S"]
-        g = Gen(rng, big=init["big"], bad_text=init.get("bad_text", 0.0), huge=init.get("huge", 0.0), odd_ints=True)
+        g = Gen(rng, big=init["big"], bad_text=init.get("bad_text", 0.0), huge=init.get("huge", 0.0), odd_ints=True,
+                customs=init.get("customs", ()))
+        g.mega = init.get("mega", 0.0)
         model = S.model
         pend = len(w.pending("S"))
         x = rng.random()
